@@ -8,6 +8,7 @@
 //   family 3  move wide       cfg = [3, variant, p, enable]                   op = [is64, rd, kind, a, b]
 //   family 4  add/sub imm     cfg = [4, inst, region, enable]                 op = [inst, sf, imm, shiftmode]
 //   family 5  bitfield        cfg = [5, inst, sf, enable]                     op = [inst, sf, lsb, width]
+//   family 6  a64 pc-relative cfg = [6, inst, path, enable]                   op = [inst, path, distance, mem_offset]
 // A "sweep" (cfg[3] > 0) walks a whole block of consecutive values inside vh_run; the list of all sweep
 // items is enumerated deterministically and split over the workers (item i -> worker i mod workers), after
 // the share is exhausted the generator produces random explicit cases.
@@ -943,7 +944,7 @@ static void run_fp(const vh::Case& c, vh::Ctx& ctx) {
       case 0: check_fp_util(ctx, p, a); break;
       case 1: check_fp_util(ctx, p, vfp_expand_imm(imm8, kPrecBits[p]) ^ (a & mask_n(kPrecBits[p] - 8))); break;   // right head, dirty low bits
       case 2: check_fp_asm(ctx, s, unsigned(umod(op_at(op, 4), 8)), a, 0); break;
-      case 3: check_fp_asm(ctx, s, unsigned(umod(op_at(op, 4), 8)), vfp_expand_imm(imm8, 64) ^ (a & mask_n(56) & (umod(op_at(op, 4), 3) ? ~0ull : 0ull)), 0); break;
+      case 3: check_fp_asm(ctx, s, unsigned(umod(op_at(op, 4), 8)), vfp_expand_imm(imm8, 64) ^ (a & mask_n(56)), 0); break;   // right head, dirty low bits (a may be 0)
     }
     judged++;
   }
@@ -1257,6 +1258,163 @@ static void run_bitfield(const vh::Case& c, vh::Ctx& ctx) {
   }
 }
 
+
+// ---- family 6: the AArch64 pc-relative formats end to end (label -> fixup/displacement -> instruction word) ------
+// Checks that the formats the assembler constructs (reset_to_imm_value arguments, adrp's discarded bits) and the
+// bound-label path (EmitOp_DispImm) agree with the architecture, not only the codec called with a re-typed format.
+enum { RI_B, RI_BL, RI_BCC, RI_CBZ, RI_CBNZ, RI_TBZ, RI_TBNZ, RI_ADR, RI_ADRP, RI_LDR_X, RI_LDR_W, RI_LDRSW, RI_LDR_S, RI_LDR_D, RI_LDR_Q, RI_COUNT };
+struct RelInst { const char* name; const char* fmt; uint32_t fixed_mask, fixed_val; bool mem; };
+static const RelInst kRel[RI_COUNT] = {
+  {"b", "a64-imm26", 0xFC000000u, 0x14000000u, false}, {"bl", "a64-imm26", 0xFC000000u, 0x94000000u, false},
+  {"b.cc", "a64-imm19", 0xFF000010u, 0x54000000u, false},
+  {"cbz", "a64-imm19", 0xFF000000u, 0xB4000000u, false}, {"cbnz", "a64-imm19", 0xFF000000u, 0x35000000u, false},
+  {"tbz", "a64-imm14", 0xFF000000u, 0xB6000000u, false}, {"tbnz", "a64-imm14", 0xFF000000u, 0x37000000u, false},
+  {"adr", "a64-adr", 0x9F000000u, 0x10000000u, false}, {"adrp", "a64-adrp", 0x9F000000u, 0x90000000u, false},
+  {"ldr-x", "a64-imm19", 0xFF000000u, 0x58000000u, true}, {"ldr-w", "a64-imm19", 0xFF000000u, 0x18000000u, true}, {"ldrsw", "a64-imm19", 0xFF000000u, 0x98000000u, true},
+  {"ldr-s", "a64-imm19", 0xFF000000u, 0x1C000000u, true}, {"ldr-d", "a64-imm19", 0xFF000000u, 0x5C000000u, true}, {"ldr-q", "a64-imm19", 0xFF000000u, 0x9C000000u, true},
+};
+static int fmt_index(const char* name) { for (int i = 0; i < kNumFmts; i++) if (!strcmp(kFmts[i].name, name)) return i; return 0; }
+
+static Error rel_fill(A64& s, uint64_t n) {
+  Error e = Error::kOk;
+  if (n / 8) e = s.a.embed_uint64(0, size_t(n / 8));
+  if (e == Error::kOk && (n % 8)) e = s.a.embed_uint8(0, size_t(n % 8));
+  return e;
+}
+
+static Error rel_emit(A64& s, unsigned inst, const Label& L, int32_t memoff, unsigned rt, unsigned aux) {
+  using namespace a64;
+  switch (inst) {
+    case RI_B: return s.a.b(L);
+    case RI_BL: return s.a.bl(L);
+    case RI_BCC: return s.a.b(CondCode(uint8_t(CondCode::kEQ) + (aux % 14)), L);
+    case RI_CBZ: return s.a.cbz(Gp::make_r64(rt), L);
+    case RI_CBNZ: return s.a.cbnz(Gp::make_r32(rt), L);
+    case RI_TBZ: return s.a.tbz(Gp::make_r64(rt), Imm(32 + aux % 32), L);
+    case RI_TBNZ: return s.a.tbnz(Gp::make_r32(rt), Imm(aux % 32), L);
+    case RI_ADR: return s.a.adr(Gp::make_r64(rt), L);
+    case RI_ADRP: return s.a.adrp(Gp::make_r64(rt), L);
+    case RI_LDR_X: return s.a.ldr(Gp::make_r64(rt), ptr(L, memoff));
+    case RI_LDR_W: return s.a.ldr(Gp::make_r32(rt), ptr(L, memoff));
+    case RI_LDRSW: return s.a.ldrsw(Gp::make_r64(rt), ptr(L, memoff));
+    case RI_LDR_S: return s.a.ldr(Vec::make_v32(rt), ptr(L, memoff));
+    case RI_LDR_D: return s.a.ldr(Vec::make_v64(rt), ptr(L, memoff));
+    default: return s.a.ldr(Vec::make_v128(rt), ptr(L, memoff));
+  }
+}
+
+// path 0: label bound earlier in the same section; 1: bound later in the same section; 2: bound in another section
+static void check_rel(vh::Ctx& ctx, unsigned inst, unsigned path, int64_t dist, int64_t memoff_in) {
+  inst %= RI_COUNT; path %= 3;
+  const RelInst& R = kRel[inst];
+  const int fi = fmt_index(R.fmt);
+  const Fmt& f = kFmts[fi];
+  int32_t memoff = R.mem ? int32_t(memoff_in % 4097) : 0;
+  const int64_t kLocalMax = 1 << 17, kFarMax = int64_t(1) << 40;
+  uint64_t h = mix64(uint64_t(dist) * 3 + inst);
+  unsigned pre = unsigned(h % 4), rt = unsigned((h >> 8) % 31), aux = unsigned(h >> 16);
+  A64 s;
+  Label L = s.a.new_label();
+  std::string kb = std::string("a64-rel-") + R.name;
+  Error e = Error::kOk;
+  for (unsigned i = 0; i < pre; i++) (void)s.a.nop();
+  size_t inst_off = 0;
+  int64_t disp;
+  if (path == 0) {
+    uint64_t m = uint64_t(dist < 0 ? -(dist % kLocalMax) : dist % kLocalMax);
+    (void)s.a.bind(L);
+    if (rel_fill(s, m) != Error::kOk) return;
+    inst_off = s.size();
+    e = rel_emit(s, inst, L, memoff, rt, aux);
+    disp = -int64_t(m) + memoff;
+    if (e != Error::kOk && s.size() != inst_off) { if (imm_fail(ctx, kb + "-modified-on-failure", "%s: error %u but the buffer grew", R.name, unsigned(e))) return; }
+  } else if (path == 1) {
+    uint64_t m = uint64_t(dist < 0 ? -(dist % kLocalMax) : dist % kLocalMax);
+    if (m < 4) m = 4;
+    inst_off = s.size();
+    Error e0 = rel_emit(s, inst, L, memoff, rt, aux);
+    if (e0 != Error::kOk || s.size() != inst_off + 4) { imm_fail(ctx, kb + "-rejects-representable", "%s to an unbound label failed with error %u", R.name, unsigned(e0)); return; }
+    if (rel_fill(s, m - 4) != Error::kOk) return;
+    e = s.a.bind(L);
+    disp = int64_t(m) + memoff;
+  } else {
+    if (dist > kFarMax) dist = kFarMax;
+    if (dist < -kFarMax) dist = -kFarMax;
+    Section* far = nullptr;
+    if (s.code.new_section(Out(far), "far") != Error::kOk) return;
+    inst_off = s.size();
+    Error e0 = rel_emit(s, inst, L, memoff, rt, aux);
+    if (e0 != Error::kOk || s.size() != inst_off + 4) { imm_fail(ctx, kb + "-rejects-representable", "%s to an unbound label failed with error %u", R.name, unsigned(e0)); return; }
+    (void)s.a.section(far);
+    unsigned lpre = unsigned((h >> 40) % 3) * 4;
+    if (lpre) (void)s.a.embed_uint8(0, lpre);
+    (void)s.a.bind(L);
+    (void)s.a.embed_uint64(0, 2);
+    const uint64_t T = uint64_t(1) << 41;
+    s.code.text_section()->set_offset(T);
+    far->set_offset(uint64_t(int64_t(T) + int64_t(inst_off) + dist - int64_t(lpre)));
+    e = s.code.resolve_cross_section_fixups();
+    disp = dist + memoff;
+  }
+  bool refused = e != Error::kOk || (path != 0 && s.code.unresolved_fixup_count() != 0);
+  int cls = classify(f, disp);
+  ctx.cls(refused ? "rel/refused" : "rel/accepted");
+  ctx.cls(path == 0 ? "rel/path-bound-backward" : path == 1 ? "rel/path-fixup-same-section" : "rel/path-fixup-cross-section");
+  if (!refused && cls != 0) { if (imm_fail(ctx, kb + "-accepts-unrepresentable", "%s (path %u) displacement %" PRId64 " was accepted although %s cannot hold it", R.name, path, disp, f.name)) return; }
+  if (refused && cls == 0) { if (imm_fail(ctx, kb + "-rejects-representable", "%s (path %u) displacement %" PRId64 " was refused (error %u, unresolved fixups %zu) although %s can hold it", R.name, path, disp, unsigned(e), s.code.unresolved_fixup_count(), f.name)) return; }
+  if (refused && path == 0) return;
+  uint32_t w;
+  memcpy(&w, s.code.text_section()->buffer().data() + inst_off, 4);
+  uint32_t fm = uint32_t(field_mask(f));
+  bool shape = (w & R.fixed_mask & ~fm) == (R.fixed_val & ~fm);
+  if (inst != RI_B && inst != RI_BL && inst != RI_BCC) shape = shape && (w & 31) == rt;
+  if (inst == RI_BCC) shape = shape && (w & 15) == (aux % 14);
+  if (inst == RI_TBZ) shape = shape && ((w >> 31) & 1) == 1 && ((w >> 19) & 31) == (aux % 32);
+  if (inst == RI_TBNZ) shape = shape && ((w >> 31) & 1) == 0 && ((w >> 19) & 31) == (aux % 32);
+  if (!shape) { if (imm_fail(ctx, kb + "-wrong-opcode", "%s assembled to 0x%08x: opcode/register bits are not the %s encoding", R.name, w, R.name)) return; }
+  if (refused) {
+    if (w & fm) imm_fail(ctx, kb + "-modified-on-failure", "%s (path %u) displacement %" PRId64 " was refused but the field was written: 0x%08x", R.name, path, disp, w);
+    return;
+  }
+  i128 dec = 0;
+  if (!decode_field(f, w, dec) || dec != i128(disp))
+    imm_fail(ctx, kb + "-wrong-field", "%s (path %u) displacement %" PRId64 " assembled to 0x%08x which decodes to %" PRId64, R.name, path, disp, w, int64_t(dec));
+}
+
+static void run_rel(const vh::Case& c, vh::Ctx& ctx) {
+  unsigned inst = unsigned(umod(cfg_at(c, 1), RI_COUNT));
+  unsigned path = unsigned(umod(cfg_at(c, 2), 3));
+  uint64_t judged = 0;
+  if (cfg_at(c, 3) > 0) {
+    const Fmt& f = kFmts[fmt_index(kRel[inst].fmt)];
+    int64_t unit = int64_t(1) << f.discard;
+    std::vector<int64_t> ds;
+    if (path == 2) {
+      i128 lo, hi;
+      unit_range(f, lo, hi);
+      for (int64_t d = -40; d <= 40; d++) ds.push_back(d);
+      for (int k = 0; k <= f.count + f.discard + 2; k++)
+        for (int sgn = -1; sgn <= 1; sgn += 2)
+          for (int64_t d : {-unit, int64_t(-1), int64_t(0), int64_t(1), int64_t(2), unit, 2 * unit}) ds.push_back(sgn * (int64_t(1) << k) + d);
+      for (int64_t u = -40; u <= 40; u++) { ds.push_back((int64_t(lo) + u) * unit); ds.push_back((int64_t(hi) + u) * unit); ds.push_back((int64_t(hi) + u) * unit + 1); }
+    } else {
+      for (int64_t d = 0; d <= 300; d++) ds.push_back(d);
+      for (int k = 8; k <= 16; k++) for (int64_t d = -4; d <= 4; d++) ds.push_back((int64_t(1) << k) + d);
+      ds.push_back(32764); ds.push_back(32768); ds.push_back(32772);
+    }
+    for (int64_t d : ds) {
+      check_rel(ctx, inst, path, d, 0); judged++;
+      if (kRel[inst].mem) { check_rel(ctx, inst, path, d, 4 * (d & 31)); check_rel(ctx, inst, path, d, 1 + (d & 7)); judged += 2; }
+    }
+    ctx.cls("rel-sweep-items");
+  }
+  for (const vh::Op& op : c.ops) { check_rel(ctx, unsigned(umod(op_at(op, 0), RI_COUNT)), unsigned(umod(op_at(op, 1), 3)), op_at(op, 2), op_at(op, 3)); judged++; }
+  if (judged) {
+    ctx.nontrivial();
+    if (ctx.want_sample()) { char b[120]; snprintf(b, sizeof b, "a64-rel inst=%s path=%u ops=%zu: %" PRIu64 " displacements", kRel[inst].name, path, c.ops.size(), judged); ctx.sample(b); }
+  }
+}
+
 // =================================================================================================
 // Enumeration of sweep items and the generator
 // =================================================================================================
@@ -1321,6 +1479,7 @@ static std::vector<Item> build_items(const vh::Opts& o) {
   for (int p = 0; p < 3; p++) items.push_back({3, 2, p, 1, 0});
   for (int inst = 0; inst < 6; inst++) for (int region = 0; region < 4; region++) items.push_back({4, inst, region, 1, 0});
   for (int inst = 0; inst < BF_COUNT; inst++) for (int sf = 0; sf < 2; sf++) items.push_back({5, inst, sf, 1, 0});
+  for (int inst = 0; inst < RI_COUNT; inst++) for (int path = 0; path < 3; path++) items.push_back({6, inst, path, 1, 0});
   return items;
 }
 
@@ -1340,7 +1499,7 @@ static vh::Case random_case() {
   int fam = 0;
   {
     int r = *vh::irange<int>(0, 99);
-    fam = r < 40 ? 0 : r < 55 ? 1 : r < 65 ? 2 : r < 85 ? 3 : r < 90 ? 4 : 5;
+    fam = r < 36 ? 0 : r < 50 ? 1 : r < 60 ? 2 : r < 78 ? 3 : r < 83 ? 4 : r < 91 ? 5 : 6;
   }
   if (fam == 0) {
     int fi = *vh::irange<int>(0, kNumFmts - 1);
@@ -1413,6 +1572,15 @@ static vh::Case random_case() {
       int64_t p = w == 0 ? rnd64() : *vh::irange<int>(0, 70), q = w == 1 ? rnd64() : *vh::irange<int>(0, 70);
       c.ops.push_back({*vh::irange<int>(0, BF_COUNT - 1), *vh::irange<int>(0, 1), p, q});
     }
+  } else if (fam == 6) {
+    c.cfg = {6, 0, 0, 0, 0};
+    int n = *vh::irange<int>(1, 12);
+    for (int i = 0; i < n; i++) {
+      int path = *vh::irange<int>(0, 2);
+      int w = *vh::irange<int>(0, 3);
+      int64_t d = w == 0 ? *vh::irange<int>(-5000, 5000) : w == 1 ? (rnd64() >> *vh::irange<int>(23, 50)) : w == 2 ? (int64_t(*vh::irange<int>(-1, 1)) << *vh::irange<int>(12, 34)) + *vh::irange<int>(-8, 8) : int64_t(*vh::irange<int>(-300000, 300000)) * 4;
+      c.ops.push_back({*vh::irange<int>(0, RI_COUNT - 1), path, d, *vh::irange<int>(0, 64)});
+    }
   }
   return c;
 }
@@ -1452,7 +1620,7 @@ void vh_fini(const vh::Opts& o, vh::Ctx& ctx) {
 }
 
 void vh_run(const vh::Case& c, vh::Ctx& ctx) {
-  int fam = int(umod(cfg_at(c, 0), 6));
+  int fam = int(umod(cfg_at(c, 0), 7));
   switch (fam) {
     default:
     case 0: run_offsets(c, ctx); break;
@@ -1461,5 +1629,6 @@ void vh_run(const vh::Case& c, vh::Ctx& ctx) {
     case 3: run_movwide(c, ctx); break;
     case 4: run_addsub(c, ctx); break;
     case 5: run_bitfield(c, ctx); break;
+    case 6: run_rel(c, ctx); break;
   }
 }
